@@ -8,10 +8,10 @@ LEVEL = "proof"
 MODULE = "NrDaemon.Props.C07"
 RULE = ("op sequences for engine mt (real MetricTable: AddRaw via both entry points, AddCount, AddValue, Merge, MergeFailed, "
         "ApplyRules with rename maps compiled to real regexp rules): capacities 0..8, forced/unforced mixes, scoped and unscoped "
-        "keys, carried-over tables, renames collapsing several names into one. Non-trivial = some key received >= 2 contributions "
+        "keys, carried-over tables, renames collapsing several names into one. Batch `rules` (engine rules: the real NewMetricRulesFromJSON + MetricRules.Apply): 1-5 rules with distinct eval_order over a three-letter alphabet (anchored / unanchored literals, each_segment, replace_all, terminate_chain, ignore, replacements that contain the expression again), names of 1-4 segments in mixed case. Non-trivial = some key received >= 2 contributions "
         "or a rename collapsed two names; distinct = distinct op lists.")
 ASSUMPTIONS = ["exact integer arithmetic: the generator produces integer-valued floats below 2^53; float rounding is not modelled",
-               "Go's regexp is exercised only through literal anchored patterns here (engine `rules` covers the rule-chain semantics)"]
+               "rule expressions are literals with optional ^ / $ anchors and replacements without back-references; character classes, groups and back-references of Go's regexp are not modelled"]
 EXPLANATION = "Theorems about MData.agg / table lookup / ApplyRules in Lean; exact canonical table equality with the real MetricTable after every op; ledger Spec on the implementation."
 TECHNIQUE = "Lean 4 theorems (commutativity/associativity, permutation invariance via List.Perm, lookup = combination of contributions, ApplyRules loses nothing) + differential correspondence with ledger Spec on the real MetricTable"
 LEVEL_TEXT = ("Machine-checked proofs that aggregation is commutative/associative, that the table value for every key is the "
@@ -28,7 +28,48 @@ def plan(ctx):
     rng, tier = ctx["rng"], ctx["tier"]
     n = 400 if tier == "quick" else 20000
     seqs = [("mt-%d" % i, gm.mt_seq(rng)) for i in range(n)]
-    return [("corpus", corpus(ID)), ("gen", seqs)]
+    m = 150 if tier == "quick" else 6000
+    rules = [("rules-%d" % i, rules_seq(rng)) for i in range(m)]
+    return [("corpus", corpus(ID)), ("gen", seqs), ("rules", rules)]
+
+
+def hx(s):
+    return s.encode().hex() if s else "-"
+
+
+def rules_seq(rng):
+    """rule lists over a tiny alphabet so that rules match often, interact (a later rule matches what an earlier one wrote)
+    and overlap; names are '/'-separated segments, sometimes upper case (expressions are compiled case-insensitively)"""
+    alpha = "abc"
+    ops = []
+    for _ in range(rng.randint(4, 10)):
+        nrules = rng.randint(1, 5)
+        orders = rng.sample(range(0, 40), nrules)     # pairwise distinct: sort.Sort is not stable
+        rs = []
+        for o in orders:
+            kind = rng.random()
+            flags = ""
+            if kind < 0.08:
+                flags += "i"
+            elif kind < 0.35:
+                flags += "e"
+            elif kind < 0.55:
+                flags += "a"
+            if rng.random() < 0.4:
+                flags += "t"
+            lit = "".join(rng.choice(alpha) for _ in range(rng.choice([1, 1, 2, 2, 3])))
+            repl = "".join(rng.choice(alpha + "x") for _ in range(rng.choice([0, 1, 1, 2, 3])))
+            if rng.random() < 0.15:
+                repl = lit + repl                      # the replacement contains the expression again
+            anchor = rng.choice(["none", "none", "none", "pre", "suf", "both"])
+            rs.append("%d:%s:%s:%s:%s" % (o, flags or "-", anchor, hx(lit), hx(repl)))
+        for _ in range(rng.randint(2, 6)):
+            segs = ["".join(rng.choice(alpha) for _ in range(rng.randint(0, 4))) for _ in range(rng.randint(1, 4))]
+            name = "/".join(segs)
+            if rng.random() < 0.2:
+                name = name.upper() if rng.random() < 0.5 else name.capitalize()
+            ops.append("rules apply n=%s r=%s" % (hx(name), ";".join(rs)))
+    return ops
 
 
 def run(ctx, bname, seqs):
@@ -40,8 +81,16 @@ def run(ctx, bname, seqs):
 
 def tags(r):
     t = set()
-    for o in r.ops:
+    for o, il in zip(r.ops, r.impl):
         w = o.split()
+        if w[0] == "rules":
+            t.add("rules")
+            if il:
+                t.add("rules:" + il.split()[0])
+            for fl in ("i", "e", "a", "t"):
+                if (":%s" % fl) in o or (fl + ":") in o:
+                    pass
+            continue
         t.add("op:" + w[1])
     if nontrivial(r):
         t.add("combined")
@@ -50,6 +99,9 @@ def tags(r):
 
 def nontrivial(r):
     seen = set()
+    if r.ops and r.ops[0].startswith("rules "):
+        # a rule chain in which a later rule saw what an earlier one wrote, or a terminate / ignore took effect
+        return any(il and ("res=matched" in il or "res=ignore" in il) for il in r.impl)
     for o in r.ops:
         w = o.split()
         if w[1] in ("add", "addcount", "addvalue"):
